@@ -130,35 +130,7 @@ func genCtx(seed uint64, tier string) *Scenario {
 				op.A[1] = op.A[0]
 			}
 		}
-		switch op.Name {
-		case "c.Err", "c.SetPrec", "c.SetMode":
-			op.Z = -1
-		case "c.NewInt64":
-			op.I = []int64{0, 1, -1, math.MaxInt64, math.MinInt64, int64(r.Uint64())}[r.intn(6)]
-		case "c.NewUint64":
-			op.U = []uint64{0, 1, math.MaxUint64, r.Uint64()}[r.intn(4)]
-		case "c.NewInt":
-			op.S = bigIntLit(r)
-		case "c.NewRat":
-			op.S = bigIntLit(r) + "/" + strings.TrimPrefix(bigIntLit(r), "-")
-			if strings.HasSuffix(op.S, "/0") {
-				op.S += "7"
-			}
-		case "c.NewFloat64":
-			if r.chance(0.25) {
-				op.FB = math.Float64bits(math.NaN())
-			} else {
-				op.FB = math.Float64bits(f64Edges[r.intn(len(f64Edges))])
-			}
-		case "c.NewFloat":
-			op.P = r.pick(24, 53, 100)
-			op.S = r.pickS("+Inf", "-Inf", "0", "1.5", "-123.456e10", "7e-30")
-		case "c.NewString":
-			op.S = parseLit(r, 0)
-		case "c.ParseDecimal":
-			op.M = r.pick(0, 10, 2, 16)
-			op.S = parseLit(r, op.M)
-		}
+		fillCtxParams(r, &op)
 		if focus && r.chance(0.6) && nv > 2 {
 			op = Op{ID: i, Name: r.pickS("c.Quo", "c.Quo", "c.Quo", "c.Mul", "c.FMA"), Z: r.rangeI(2, nv-1), A: []int{0, 1}}
 			if op.Name == "c.FMA" {
@@ -182,6 +154,39 @@ func genCtx(seed uint64, tier string) *Scenario {
 	sc.Tasks = []TaskSpec{ts}
 	genPoolFaults(r, sc)
 	return sc
+}
+
+// fillCtxParams draws the non-variable parameters of a context operation.
+func fillCtxParams(r rng, op *Op) {
+	switch op.Name {
+	case "c.Err", "c.SetPrec", "c.SetMode":
+		op.Z = -1
+	case "c.NewInt64":
+		op.I = []int64{0, 1, -1, math.MaxInt64, math.MinInt64, int64(r.Uint64())}[r.intn(6)]
+	case "c.NewUint64":
+		op.U = []uint64{0, 1, math.MaxUint64, r.Uint64()}[r.intn(4)]
+	case "c.NewInt":
+		op.S = bigIntLit(r)
+	case "c.NewRat":
+		op.S = bigIntLit(r) + "/" + strings.TrimPrefix(bigIntLit(r), "-")
+		if strings.HasSuffix(op.S, "/0") {
+			op.S += "7"
+		}
+	case "c.NewFloat64":
+		if r.chance(0.25) {
+			op.FB = math.Float64bits(math.NaN())
+		} else {
+			op.FB = math.Float64bits(f64Edges[r.intn(len(f64Edges))])
+		}
+	case "c.NewFloat":
+		op.P = r.pick(24, 53, 100)
+		op.S = r.pickS("+Inf", "-Inf", "0", "1.5", "-123.456e10", "7e-30")
+	case "c.NewString":
+		op.S = parseLit(r, 0)
+	case "c.ParseDecimal":
+		op.M = r.pick(0, 10, 2, 16)
+		op.S = parseLit(r, op.M)
+	}
 }
 
 // addCtxFaults places foreign panics inside context operations, using the
